@@ -112,7 +112,19 @@ func recC05() *vkit.Recorder {
 func TestC05Loop(t *testing.T) {
 	rec := recC05()
 	rapid.Check(t, func(t *rapid.T) {
-		c := GenCase(t, false)
+		// moves that get interrupted (destination unready / unreachable, lost updates) and are started
+		// again are part of "every sequence of cycles and scrapes during a move"; faults that reset
+		// sidecar state (restart, shard removal) are left to C06
+		c := GenCase(t, rapid.Bool().Draw(t, "withInterruptions"))
+		var keep []Action
+		for _, a := range c.Prefix {
+			switch a.Kind {
+			case "restart", "killTail", "scaleDown", "outOfSync":
+				continue
+			}
+			keep = append(keep, a)
+		}
+		c.Prefix = keep
 		if msg := runLoop(rec, "TestC05Loop", c, "C03", true); msg != "" {
 			t.Fatalf("%s", msg)
 		}
